@@ -67,6 +67,17 @@ def run(tier, replay=None):
             ck.cov["traces_validated_against_impl"] += o["cases"]
         else:
             ck.violation("encoding vector %s: %s" % (json.dumps(o["mismatch"]["v"]), o["why"]), o)
+    # binding self-test: one flipped bit of the specified word must be reported
+    import copy
+    bad = [copy.deepcopy(v) for v in vecs if v["kind"] == "operand" and v["admit"]][:5]
+    for v in bad:
+        v["w"][3] ^= 1
+    if bad:
+        pb = subprocess.run([vh, "bcreplay"], input="\n".join(json.dumps(v) for v in bad) + "\n", capture_output=True, text=True, timeout=600)
+        nb = sum(1 for l in pb.stdout.splitlines() if "mismatch" in json.loads(l))
+        if nb != len(bad):
+            raise vlib.Infra("binding self-test: %d corrupted vectors, %d reported" % (len(bad), nb))
+        ck.part("binding self-test", corrupted=len(bad), rejected=nb)
     ck.cov["distinct_nontrivial"] = sum(1 for v in vecs if v["kind"] == "function" or min(abs(abs(v["v"]["addr"]) - b) for b in (0, 32768, 65536)) <= 3)
     for v in vecs[:: max(1, len(vecs) // 4)][:4]:
         ck.sample(v)
